@@ -66,7 +66,7 @@ func genCases(seed int64, tier string) []core.Case {
 	rng := rand.New(rand.NewSource(seed*104729 + 4))
 	nf, ng, nc, per := 16, 16, 16, 500
 	if tier == "thorough" {
-		nf, ng, nc, per = 160, 320, 320, 1000
+		nf, ng, nc, per = 160, 320, 320, 2500
 	}
 	var out []core.Case
 	for i := 0; i < nf; i++ {
